@@ -287,6 +287,12 @@ func runC11(p *Prog, r *Report) {
 	c11Relax(p, r)
 	c11Suggest(p, r)
 	c11Progress(p, r)
+	r.Rule("D7-choose-patches", "which candidate patches are applied together is decided by the audited compatibility tests (shared with C12)")
+	if ch := p.Func(pkgGR, "choosePatches"); ch != nil {
+		frozenSkips(p, r, "D7-choose-patches", "choosePatches", ch, isAppendOf("Patch"), c12Sanctioned[tableKey(c12Sanctioned, ch)], "CHOOSE", "a patch is applied (or left out) under another compatibility test than the audited ones: e.g. a child override is applied together with the parent upgrade that already fixes the same vulnerability, pulling the child below the version it would resolve to")
+	}
+	r.Rule("D8-config-strings", "package:level strings are split at the last colon")
+	c11LastColon(p, r, "D8-config-strings")
 	n := 0
 	for _, a := range [][2]string{{"guidedremediation/internal/strategy/override", "patchVulns"}, {"guidedremediation/internal/strategy/relax/relaxer", "NpmRelaxer.Relax"}, {"guidedremediation/internal/suggest", "suggestMavenVersion"}} {
 		if fn := p.Func(a[0], a[1]); fn != nil {
